@@ -57,6 +57,13 @@ OPS = [
 ]
 
 
+SIBLINGS = [('copyable', 'cloneable'), ('cloneable', 'defaultable'), ('size', 'alignment'), ('prologue', 'epilogue'), ('target_size', 'size'),
+            ('singleton', 'align'), ('base_name', 'original_name'), ('size', 'region_size'), ('last_address', 'size'), ('visibility', 'Visibility::Private'),
+            ('doc', 'None'), ('idx', 'index'), ('associated_functions', 'vftable_functions'), ('base_vfunc', 'derived_vfunc'), ('scope_types', 'scope_modules'),
+            ('resolved', 'unresolved'), ('Resolved', 'Unresolved'), ('Defined', 'Extern'), ('Predefined', 'Extern'), ('Thiscall', 'Cdecl'), ('Stdcall', 'Fastcall'),
+            ('MutSelf', 'ConstSelf'), ('name', 'field_name'), ('path', 'resolvee_path'), ('offset', 'size'), ('required_alignment', 'alignment')]
+
+
 def mutants_of(rel):
     path = os.path.join(REPO, rel)
     src, lines = code_lines(path)
@@ -109,6 +116,13 @@ def mutants_of(rel):
                 if 'fn ' in ls and a_ == r'\bpub ' and 'quote' not in ls and '#' not in ls:
                     continue
                 out.append((rel, i, l, l[:m.start()] + b_ + l[m.end():], 'template: %s -> %s' % (m.group(0).strip(), b_.strip() or '(dropped)')))
+        # a sibling identifier used instead (same type, different meaning)
+        for a_, b_ in SIBLINGS:
+            for x_, y_ in ((a_, b_), (b_, a_)):
+                for m in re.finditer(r'(?<![\w.:])%s\b(?!\()' % re.escape(x_), ls):
+                    out.append((rel, i, l, l[:m.start()] + y_ + l[m.end():], 'sibling: %s -> %s' % (x_, y_)))
+                for m in re.finditer(r'(?<=\.)%s\b(?!\()' % re.escape(x_), ls):
+                    out.append((rel, i, l, l[:m.start()] + y_ + l[m.end():], 'sibling field: .%s -> .%s' % (x_, y_)))
         # Some(x) -> None in a return position
         m = re.match(r'^(\s*)(return )?Some\((.*)\)(;?)$', l)
         if m and 'Ok(' not in l:
